@@ -570,7 +570,7 @@ REAL_VS_STUB = {
             'clocks, generated layers/tests driven by the plan',
 }
 COMMON_ASSUMPTIONS = [
-    'the simulator runs on CPython 3.12.1 only (the only interpreter with the dependencies installed); C05, C11 and C13 add directed real-process runs under CPython 3.9/3.10/3.11/3.13 where those interpreters are present (vsim/xpy.py)',
+    'the simulator runs on CPython 3.12.1 only (the only interpreter with the dependencies installed); C04, C05, C11 and C13 add directed real-process runs under CPython 3.9/3.10/3.11/3.13 where those interpreters are present (vsim/xpy.py)',
     'layer children are forked from a warmed interpreter (runner modules imported afresh), not '
     'exec()ed; a sample is cross-checked against real subprocesses in the thorough tier',
     'subunit output is not exercised (python-subunit is not installed); the --xml wrapper and the '
